@@ -91,6 +91,84 @@ impl G {
         }
     }
 
+    // ---------------- pooling / convolution output-size arithmetic: small-scope enumeration
+    /// Cases with two symbolic spatial dims (H = a, W = b) instantiated to all sizes 1..9
+    /// (a = n, b = 10 - n), each spatial dim with its own (kernel, stride, pad_start, pad_end,
+    /// dilation / output_padding) tuple.  `thorough`: the whole scope; otherwise every tuple in which
+    /// the ceil_mode cap or the start padding matters, plus a seeded sample of the rest.
+    pub fn pool_conv_cases(&mut self, thorough: bool) -> Vec<String> {
+        let envs: Vec<Vec<(usize, i32)>> = (1..=9).map(|n| vec![(0, n), (1, 10 - n), (2, 1), (3, 2)]).collect();
+        let (a, b) = (mk_var(0, true), mk_var(1, true));
+        let mut out = vec![];
+        let mut mk = |op: &str, attrs: Vec<(&str, Attr)>, nout: usize, inputs: Vec<Input>| {
+            out.push(Case { op: op.to_string(), domain: String::new(),
+                            attrs: attrs.into_iter().map(|(n, a)| (n.to_string(), a)).collect(),
+                            nout, inputs, envs: envs.clone() }.to_line());
+        };
+        let x = |ch: i32| Self::inp('f', Sym::Shape(vec![v(1), v(ch), a.clone(), b.clone()]));
+        // ---- pooling: (kernel, stride, pad_start, pad_end)
+        let mut all: Vec<(i64, i64, i64, i64)> = vec![];
+        for k in 1..=4 { for s in 1..=3 { for ps in 0..=2 { for pe in 0..=2 { all.push((k, s, ps, pe)); } } } }
+        let binding: Vec<(i64, i64, i64, i64)> = all.iter().cloned().filter(|t| t.1 >= 2 && t.2 >= 1).collect();
+        for (vi, (op, cip)) in [("MaxPool", 0i64), ("AveragePool", 0), ("AveragePool", 1)].iter().enumerate() {
+            for ceil in [1i64, 0] {
+                let tuples: Vec<(i64, i64, i64, i64)> = if thorough { all.clone() }
+                    else if ceil == 1 && vi < 2 { binding.clone() }
+                    else { (0..8).map(|_| self.r.pick(&all)).collect() };
+                // pair tuple i (H) with a tuple at a seed-dependent offset (W)
+                let off = 1 + self.r.below(tuples.len() as u64 - 1) as usize;
+                for i in (0..tuples.len()).step_by(if thorough { 1 } else { 2 }) {
+                    let (h, w) = (tuples[i], tuples[(i + off) % tuples.len()]);
+                    let mut attrs = vec![("kernel_shape", Attr::Ints(vec![h.0, w.0])), ("strides", Attr::Ints(vec![h.1, w.1])),
+                                         ("pads", Attr::Ints(vec![h.2, w.2, h.3, w.3])), ("ceil_mode", Attr::Int(ceil))];
+                    if *op == "AveragePool" { attrs.push(("count_include_pad", Attr::Int(*cip))); }
+                    mk(op, attrs, 1, vec![x(2)]);
+                }
+            }
+        }
+        for op in ["MaxPool", "AveragePool"] { for ap in ["SAME_UPPER", "SAME_LOWER", "VALID"] { for ceil in [0i64, 1] {
+            let n = if thorough { 6 } else { 1 };
+            for _ in 0..n {
+                let (kh, kw, sh, sw) = (1 + self.r.below(4) as i64, 1 + self.r.below(4) as i64, 1 + self.r.below(3) as i64, 1 + self.r.below(3) as i64);
+                mk(op, vec![("kernel_shape", Attr::Ints(vec![kh, kw])), ("strides", Attr::Ints(vec![sh, sw])),
+                            ("auto_pad", Attr::Str(ap.into())), ("ceil_mode", Attr::Int(ceil))], 1, vec![x(2)]);
+            }
+        } } }
+        // ---- Conv: (kernel, stride, dilation, pad_start, pad_end)
+        let mut call: Vec<(i64, i64, i64, i64, i64)> = vec![];
+        for k in 1..=3 { for s in 1..=3 { for d in 1..=2 { for ps in 0..=2 { for pe in 0..=2 { call.push((k, s, d, ps, pe)); } } } } }
+        let ctuples: Vec<(i64, i64, i64, i64, i64)> = if thorough { call.clone() } else { (0..24).map(|_| self.r.pick(&call)).collect() };
+        let off = 1 + self.r.below(ctuples.len() as u64 - 1) as usize;
+        for i in (0..ctuples.len()).step_by(if thorough { 1 } else { 2 }) {
+            let (h, w) = (ctuples[i], ctuples[(i + off) % ctuples.len()]);
+            let wt = Self::inp('f', Sym::Shape(vec![v(3), v(2), v(h.0 as i32), v(w.0 as i32)]));
+            mk("Conv", vec![("kernel_shape", Attr::Ints(vec![h.0, w.0])), ("strides", Attr::Ints(vec![h.1, w.1])),
+                            ("dilations", Attr::Ints(vec![h.2, w.2])), ("pads", Attr::Ints(vec![h.3, w.3, h.4, w.4]))], 1, vec![x(2), wt]);
+        }
+        for ap in ["SAME_UPPER", "SAME_LOWER", "VALID"] {
+            for _ in 0..(if thorough { 8 } else { 2 }) {
+                let (kh, kw, sh, sw, dh) = (1 + self.r.below(3) as i64, 1 + self.r.below(3) as i64, 1 + self.r.below(3) as i64, 1 + self.r.below(3) as i64, 1 + self.r.below(2) as i64);
+                let wt = Self::inp('f', Sym::Shape(vec![v(3), v(2), v(kh as i32), v(kw as i32)]));
+                mk("Conv", vec![("kernel_shape", Attr::Ints(vec![kh, kw])), ("strides", Attr::Ints(vec![sh, sw])),
+                                ("dilations", Attr::Ints(vec![dh, 1])), ("auto_pad", Attr::Str(ap.into()))], 1, vec![x(2), wt]);
+            }
+        }
+        // ---- ConvTranspose: (kernel, stride, pad_start, pad_end, output_padding)
+        let mut tall: Vec<(i64, i64, i64, i64, i64)> = vec![];
+        for k in 1..=3 { for s in 1..=3 { for ps in 0..=1 { for pe in 0..=1 { for op in 0..s { tall.push((k, s, ps, pe, op)); } } } } }
+        let ttuples: Vec<(i64, i64, i64, i64, i64)> = if thorough { tall.clone() } else { (0..16).map(|_| self.r.pick(&tall)).collect() };
+        let off = 1 + self.r.below(ttuples.len() as u64 - 1) as usize;
+        for i in (0..ttuples.len()).step_by(if thorough { 1 } else { 2 }) {
+            let (h, w) = (ttuples[i], ttuples[(i + off) % ttuples.len()]);
+            let wt = Self::inp('f', Sym::Shape(vec![v(2), v(3), v(h.0 as i32), v(w.0 as i32)]));
+            let mut attrs = vec![("kernel_shape", Attr::Ints(vec![h.0, w.0])), ("strides", Attr::Ints(vec![h.1, w.1])),
+                                 ("pads", Attr::Ints(vec![h.2, w.2, h.3, w.3]))];
+            if h.4 + w.4 > 0 { attrs.push(("output_padding", Attr::Ints(vec![h.4, w.4]))); }
+            mk("ConvTranspose", attrs, 1, vec![x(2), wt]);
+        }
+        out
+    }
+
     // ---------------- modelled operators: targeted generators
     pub fn gen_modelled(&mut self) -> String {
         match self.r.below(24) {
